@@ -352,6 +352,10 @@ func fnSetRange(ctx *cmdContext, args map[string]any) (output respValue, err err
 		output.data = respErrorString("ERR offset is out of range")
 		return
 	}
+	if value == "" {
+		// nothing to write: reply with the current length; the key is neither created nor padded
+		return fnStrLen(ctx, args)
+	}
 	if offset > 512*1024*1024 || offset+int64(len(value)) > 512*1024*1024 {
 		output.data = respErrorString("ERR string exceeds maximum allowed size (proto-max-bulk-len)")
 		return
